@@ -184,3 +184,13 @@ def r3(ctx):
         yield VIOL("C02-R3", "from_header/algorithm-gate", "the Authorization algorithm gate is not `algorithm != b\"AWS4-HMAC-SHA256\"`", where=h.span_of_block(e[0]))
     else:
         yield PASS("C02-R3", "from_header/algorithm-gate", "rejects iff the first word != AWS4-HMAC-SHA256 (full equality)", [site(h, e[0], "gate")])
+
+
+import c09  # noqa: E402
+
+
+@M.rule("C02-R4", "percent-normalisation shape: literal/escape emission rules of normalize_uri_element (shared with C09-R1/R2)")
+def r4(ctx):
+    for r in list(c09.r1(ctx)) + list(c09.r2(ctx)):
+        r.rule = "C02-R4"
+        yield r
